@@ -366,6 +366,7 @@ type vpC18OpResult struct {
 	op        vpC18Op
 	worker    int
 	err       error
+	t0        time.Time
 	elapsed   time.Duration
 	syncDials int
 	gotConn   bool
@@ -434,6 +435,7 @@ func (c *vpC18Case) run() ([]string, string) {
 		Addr: "vp.test:80", Dial: n.Dial, MaxConns: c.cfg.MaxConns, MaxConnWaitTimeout: wait,
 		MaxIdleConnDuration: time.Duration(c.cfg.IdleMs) * time.Millisecond, ConnPoolStrategy: strategy,
 	}
+	beat := vpC04StartBeat()
 	var rmu sync.Mutex
 	var results []vpC18OpResult
 	var wg sync.WaitGroup
@@ -470,6 +472,7 @@ func (c *vpC18Case) run() ([]string, string) {
 					var stuck string
 					wd := vpC18Watch(gid, wait+time.Duration(op.TimeoutMs)*time.Millisecond+vpC18Slack*3/4, &stuck, &rmu)
 					t0 := time.Now()
+					res.t0 = t0
 					if op.TimeoutMs > 0 {
 						res.err = hc.DoTimeout(req, resp, time.Duration(op.TimeoutMs)*time.Millisecond)
 					} else {
@@ -495,6 +498,7 @@ func (c *vpC18Case) run() ([]string, string) {
 					var stuck string
 					wd := vpC18Watch(gid, wait+vpC18Slack*3/4, &stuck, &rmu)
 					t0 := time.Now()
+					res.t0 = t0
 					cc, err := hc.AcquireConn(time.Duration(op.TimeoutMs)*time.Millisecond, op.ConnClose)
 					res.elapsed = time.Since(t0)
 					wd.Stop()
@@ -549,7 +553,7 @@ func (c *vpC18Case) run() ([]string, string) {
 	n.releaseAllGates()
 	var quiet bool
 	var last string
-	dl := time.Now().Add(6 * time.Second)
+	qStart := time.Now()
 	for {
 		hc.CloseIdleConnections()
 		n.mu.Lock()
@@ -561,11 +565,12 @@ func (c *vpC18Case) run() ([]string, string) {
 			quiet = true
 			break
 		}
-		if time.Now().After(dl) {
+		if now := time.Now(); now.Sub(qStart)-beat.lost(qStart, now) > 6*time.Second {
 			break
 		}
 		time.Sleep(time.Millisecond)
 	}
+	beat.end()
 	// teardown (not an oracle): the idle cleaner goroutine and the origin
 	tdl := time.Now().Add(3 * time.Second)
 	for !vpC04HostCleanerStopped(hc) && time.Now().Before(tdl) && quiet {
@@ -578,7 +583,7 @@ func (c *vpC18Case) run() ([]string, string) {
 	tolerated, peak, dials, wOK, wFail, dbl := n.tolerated, n.peak, n.dials, n.waiterDialOK, n.waiterDialFail, n.doubleClose
 	n.mu.Unlock()
 	if !quiet {
-		viol = append(viol, "no quiescence within 6s after all requests returned and idle connections were closed: "+last)
+		viol = append(viol, "no quiescence within 6s (net of time the process was starved) after all requests returned and idle connections were closed: "+last)
 	}
 	for _, v := range origin.takeViolations() {
 		viol = append(viol, "origin: "+v)
@@ -599,6 +604,7 @@ func (c *vpC18Case) run() ([]string, string) {
 				budget = rt
 			}
 		}
+		net := r.elapsed - beat.lost(r.t0, r.t0.Add(r.elapsed))
 		switch r.op.Kind {
 		case vpC18OpAcquire:
 			switch {
@@ -609,9 +615,9 @@ func (c *vpC18Case) run() ([]string, string) {
 			}
 			if r.syncDials == 0 {
 				// never dialled itself: it found an idle conn, was refused at once, or waited
-				if r.elapsed > budget+vpC18Slack {
-					viol = append(viol, fmt.Sprintf("worker %d: AcquireConn(reqTimeout=%dms) with MaxConnWaitTimeout=%dms returned %v after %v; wait budget %v + %v slack",
-						r.worker, r.op.TimeoutMs, c.cfg.WaitMs, r.err, r.elapsed, budget, vpC18Slack)+"\n    blocked at: "+r.stuck)
+				if net > budget+vpC18Slack {
+					viol = append(viol, fmt.Sprintf("worker %d: AcquireConn(reqTimeout=%dms) with MaxConnWaitTimeout=%dms returned %v after %v (%v net of starvation); wait budget %v + %v slack",
+						r.worker, r.op.TimeoutMs, c.cfg.WaitMs, r.err, r.elapsed, net, budget, vpC18Slack)+"\n    blocked at: "+r.stuck)
 				}
 				switch {
 				case r.err == nil && r.fresh:
@@ -629,9 +635,9 @@ func (c *vpC18Case) run() ([]string, string) {
 		case vpC18OpDo:
 			if r.syncDials == 0 && (errors.Is(r.err, ErrNoFreeConns) || errors.Is(r.err, ErrTimeout)) && origin.seenCount(r.op.ID) == 0 {
 				// the request never left: it only waited for a connection
-				if r.elapsed > budget+vpC18Slack {
-					viol = append(viol, fmt.Sprintf("worker %d: Do id=%d (timeout=%dms, MaxConnWaitTimeout=%dms) never got a connection and returned %v only after %v; wait budget %v + %v slack",
-						r.worker, r.op.ID, r.op.TimeoutMs, c.cfg.WaitMs, r.err, r.elapsed, budget, vpC18Slack)+"\n    blocked at: "+r.stuck)
+				if net > budget+vpC18Slack {
+					viol = append(viol, fmt.Sprintf("worker %d: Do id=%d (timeout=%dms, MaxConnWaitTimeout=%dms) never got a connection and returned %v only after %v (%v net of starvation); wait budget %v + %v slack",
+						r.worker, r.op.ID, r.op.TimeoutMs, c.cfg.WaitMs, r.err, r.elapsed, net, budget, vpC18Slack)+"\n    blocked at: "+r.stuck)
 				}
 				if wait > 0 {
 					waiterTimeout++
